@@ -33,6 +33,15 @@ IR_D = [_G + x for x in ("ir_readNums", "ir_readFixeds", "ir_readFixedsDef", "ir
 IR_E = [_G + x for x in ("ir_crc16", "ir_crc32", "ir_sse", "ir_szse")]
 IR_TIE = [_G + x for x in ("encOp_ir", "encOp_ir_default", "decOp_ir", "cks_ir")]
 IR_THEOREMS = ["FinProto.Obl.ir_repo"] + IR_A + IR_B + IR_C + IR_D + IR_E + IR_TIE
+IR_DEC = IR_D + [_G + "decOp_ir"]      # proved in Props/GoIR_D.lean / GoIRTieDec.lean
+
+
+def ir_present(lean_dir, thms):
+    """the IR theorems whose proof files are in the tree (the decoder half lives in its own files)"""
+    import os
+    dec = os.path.exists(os.path.join(lean_dir, "FinProto", "Props", "GoIRTieDec.lean"))
+    return [t for t in thms if dec or t not in IR_DEC]
+
 
 PROPS = {
     "C01": {
